@@ -139,7 +139,10 @@ def gen_arrays(rng, count):
                 elif r < 0.85: ops.append("%s %d" % (rng.choice(["fill", "ctorfill"]), rng.choice([0, 0, rng.randint(-5, 5)])))
                 elif r < 0.93: ops.append("isempty")
                 else: ops.append("clear")
-            lines.append("sa %d : %s" % (cap, " ; ".join(ops)))
+            if rng.random() < 0.4:     # one-byte items: values wrap to 0..255, and the filler value is 255, not 0
+                ops = [o if not o.startswith(("fill", "ctorfill")) else "%s %d" % (o.split()[0], rng.choice([0, 255, 255, rng.randrange(256)])) for o in ops]
+                lines.append("sa8 %d : %s" % (cap, " ; ".join(ops + ["isempty", "clear", "isempty", "get 0"])))
+            else: lines.append("sa %d : %s" % (cap, " ; ".join(ops)))
         else:
             n = 0
             for _ in range(rng.randint(2, 25)):
